@@ -25,6 +25,8 @@ from hugr.ops import (
     Input,
     LoadConst,
     LoadFunc,
+    DataflowOp,
+    Op,
     Output,
     Tag,
     TailLoop,
@@ -58,8 +60,12 @@ class ModelExport:
         """Export the node with the given node id."""
         node_data = self.hugr[node]
 
-        inputs = [self.link_name(InPort(node, i)) for i in range(node_data._num_inps)]
-        outputs = [self.link_name(OutPort(node, i)) for i in range(node_data._num_outs)]
+        # List exactly the value ports of the operation's signature (control
+        # flow ports for basic blocks): not the static input port, but also the
+        # outputs that happen to be unconnected.
+        num_inps, num_outs = _value_port_counts(node_data.op)
+        inputs = [self.link_name(InPort(node, i)) for i in range(num_inps)]
+        outputs = [self.link_name(OutPort(node, i)) for i in range(num_outs)]
         meta = []
 
         # Export JSON metadata
@@ -401,15 +407,13 @@ class ModelExport:
                 case Input() as op:
                     source_types = model.List([type.to_model() for type in op.types])
                     sources = [
-                        self.link_name(OutPort(child, i))
-                        for i in range(child_data._num_outs)
+                        self.link_name(OutPort(child, i)) for i in range(len(op.types))
                     ]
 
                 case Output() as op:
                     target_types = model.List([type.to_model() for type in op.types])
                     targets = [
-                        self.link_name(InPort(child, i))
-                        for i in range(child_data._num_inps)
+                        self.link_name(InPort(child, i)) for i in range(len(op.types))
                     ]
 
                 case _:
@@ -556,6 +560,22 @@ class ModelExport:
                 return op.val.to_model()
             case op:
                 return None
+
+
+def _value_port_counts(op: Op) -> tuple[int, int]:
+    """Number of value (for basic blocks: control flow) ports of an operation."""
+    match op:
+        case DataflowBlock():
+            return 1, len(op.sum_ty.variant_rows)
+        case Call():
+            return len(op.instantiation.input), len(op.instantiation.output)
+        case LoadConst() | LoadFunc():
+            return 0, 1
+        case DataflowOp():
+            sig = op.outer_signature()
+            return len(sig.input), len(sig.output)
+        case _:
+            return 0, 0
 
 
 def _mangle_name(node: Node, name: str) -> str:
